@@ -30,6 +30,32 @@ def collected_from(nv, root):
     return fld, d
 
 
+ORDERED = ("std::collections::BTreeMap<", "std::collections::BTreeSet<", "std::collections::BinaryHeap<")
+
+
+def ordered_locals(nv):
+    """Locals whose type is a self-ordering std container (an ordering mechanism other than a sort call)."""
+    return [l for l in range(len(nv.raw["locals"])) if any(o in (nv.local_ty(l) or "") for o in ORDERED)]
+
+
+def container_order(nv, root):
+    """If `root` is itself a BTreeMap collected straight from a map iteration, its iteration order is by key."""
+    if not root or root[0] != "local":
+        return None
+    ty = nv.local_ty(root[1]) or ""
+    if not ty.startswith("std::collections::BTreeMap<"):
+        return None
+    fld, d = collected_from(nv, root)
+    top = strip_refs(d) if d is not None else None
+    if top is None or top[0] != "call" or top[1].rsplit("::", 1)[-1] not in ("collect", "from_iter"):
+        return None
+    inner = strip_refs(top[2][0]) if top[2] else None
+    # only the plain `map.iter()` / `map.iter().map(copy)` shapes: (key, value) pairs unchanged
+    if inner is not None and inner[0] == "call" and inner[1].rsplit("::", 1)[-1] == "iter":
+        return [{"path": [0], "dir": "asc", "via": False}]
+    return None
+
+
 def run(facts, rep, ctx):
     R1 = rep.rule("R02.1", "every hash-ordered sequence is totally sorted (by its unique map key, stable) before it is consumed", floor=6)
     R2 = rep.rule("R02.2", "sort keys/directions: pointers by source asc; labels by address (little) / by name then address (big); strings by cell address asc; cells of one string asc", floor=5)
@@ -133,7 +159,13 @@ def taint_rule(facts, rep, R1, b, everything):
                 if alts and lp["head"] not in nv.reachable_blocks(0, avoid=set(s["bb"] for s in alts)):
                     dom = alts
             if not dom:
-                rep.violation(R1, b.name, "unsorted:" + str(fld), "the sequence collected from self.%s (hash order) is consumed without a dominating sort" % fld, where)
+                cspec = container_order(nv, root)
+                if cspec is not None:
+                    rep.ok(R1, {"fn": b.name, "seq": "self." + str(fld), "sort": "BTreeMap keyed by the map key"})
+                elif ordered_locals(nv):
+                    rep.inconc(R1, "the sequence collected from self.%s passes through an ordered container instead of a sort; its order is not decided" % fld)
+                else:
+                    rep.violation(R1, b.name, "unsorted:" + str(fld), "the sequence collected from self.%s (hash order) is consumed without a dominating sort" % fld, where)
                 continue
             bad = [s for s in dom if not total_for(s["spec"], s["stable"], [[0]])]
             if fld == "cstrings":
@@ -220,6 +252,15 @@ def sort_spec_rule(facts, rep, R2, ser):
         else:
             rep.violation(R2, ser.name, "order:" + key, "self.%s%s is sorted %s; canonical order is %s" % (fld, " (%s-endian)" % endian if endian else "", spec_str(spec), want), where)
     unknown_sorts = [s for s in sorts if s["spec"] is None]
+    # a BTreeMap collected straight from self.<field>.iter() orders by the map key
+    for lp in for_loops(nv):
+        if lp["kind"] == "for" and lp["src_root"] and container_order(nv, lp["src_root"]) is not None:
+            fld = collected_from(nv, lp["src_root"])[0]
+            if fld in ("pointers", "text") and fld not in seen:
+                seen.add(fld)
+                rep.ok(R2, {"seq": fld, "spec": "BTreeMap keyed by the cell address"})
+    if ordered_locals(nv):
+        unknown_sorts = unknown_sorts or [None]
     for need in ("pointers", "text", "labels:Big", "labels:Little"):
         if need not in seen and unknown_sorts:
             rep.inconc(R2, "no recognised sort for %s (a sort with a comparator that is not understood is present)" % need)
@@ -247,7 +288,9 @@ def phase_rule(facts, rep, R3, R5, ser):
     names = [o[0] for o in order]
     core = [n for n in names if n in ("pointers", "labels", "text")]
     where = "%s:%s" % (ser.file, ser.line)
-    if core != ["pointers", "labels", "text"]:
+    if sorted(set(core)) != ["labels", "pointers", "text"]:
+        rep.inconc(R3, "emission loops recognised: %s (of %s); the internal-pointer, label and string loops are not all identified" % (core, names))
+    elif core != ["pointers", "labels", "text"]:
         rep.violation(R3, ser.name, "phase-order", "emission loops run in the order %s; canonical: internal pointers, labels, strings" % core, where)
     else:
         # each must dominate the next (no conditional skipping)
@@ -268,6 +311,8 @@ def phase_rule(facts, rep, R3, R5, ser):
             group_loop = lp
             if ty.startswith("indexmap::IndexMap<") or ty.startswith("std::collections::BTreeMap<") or ty.startswith("std::vec::Vec<"):
                 rep.ok(R5, {"grouping": ty})
+            elif not (ty.startswith("std::collections::HashMap<") or ty.startswith("std::collections::HashSet<")):
+                rep.inconc(R5, "string pointers are emitted by iterating a %s whose iteration order is not known to this check" % ty)
             else:
                 rep.violation(R5, ser.name, "grouping-type", "string pointers are emitted by iterating a %s: order depends on the hash seed" % ty, "%s:%s" % (ser.file, nv.blocks[lp["next_bb"]]["term"]["line"]))
             break
@@ -415,6 +460,35 @@ def phase_rule(facts, rep, R3, R5, ser):
         rep.ok(R3, {"image": "size,data+pool,pointers,labels/2 | seek %s | data,pool,pointers,labels,text" % hex(hdr)})
 
 
+def guarded_conversion(facts, body, bb, sh, want_root=1):
+    """A raw to_le_bytes / to_be_bytes in `body` is fine when a match on the archive's endianness selects it:
+    'ok' (Little -> le, Big -> be), 'bad' (no selection, swapped, or to_ne_bytes), 'unknown' (a selection on
+    some other Endian value)."""
+    from flow import dom_guards
+    adt = facts.adts.get("mila::endian_aware_io::Endian")
+    vnames = {v["discr"]: v["name"] for v in adt["variants"]} if adt else {0: "Little", 1: "Big"}
+    if sh == "to_ne_bytes":
+        return "bad"
+    want = "Little" if sh.endswith("le_bytes") else "Big"
+    res = None
+    for (a, s_, c) in dom_guards(body, bb):
+        term, vals, neg, dty = c
+        if term[0] != "discr":
+            continue
+        x = strip_refs(term[1])
+        if "Endian" not in str(term[2] if len(term) > 2 else ""):
+            continue
+        sel = set(vnames.values())
+        names = set(vnames[v] for v in vals if v in vnames)
+        sel = sel - names if neg else sel & names
+        if x[0] == "field" and x[2] == "endian" and strip_refs(x[1])[0] == "param" and strip_refs(x[1])[1] == want_root:
+            r = "ok" if sel == {want} else "bad"
+        else:
+            r = "unknown"
+        res = r if res in (None, r) else "unknown"
+    return res or "bad"
+
+
 def endian_rule(facts, rep, R6, ser):
     """Every multi-byte value serialize writes goes through the endian-aware writer with self.endian;
     raw to_le_bytes/to_be_bytes/write_all of integers would pin one byte order."""
@@ -431,7 +505,14 @@ def endian_rule(facts, rep, R6, ser):
             else:
                 rep.violation(R6, ser.name, "endian-arg:%s" % fmt(norm(e))[:30], "serialize writes a %s with byte order %s instead of the archive's" % (sh[6:], fmt(e)[:40]), where)
         elif sh in ("to_le_bytes", "to_be_bytes", "to_ne_bytes"):
-            rep.violation(R6, ser.name, "raw-bytes:" + sh, "serialize converts an integer with %s: the value's byte order no longer follows the archive's endianness" % sh, where)
+            verdict = guarded_conversion(facts, ser, bb, sh)
+            if verdict == "ok":
+                n += 1
+                rep.ok(R6, {"write": sh, "endian": "selected by a match on self.endian", "line": t["line"]})
+            elif verdict == "unknown":
+                rep.inconc(R6, "serialize converts with %s under a byte-order selection that was not recognised (line %s)" % (sh, t["line"]))
+            else:
+                rep.violation(R6, ser.name, "raw-bytes:" + sh, "serialize converts an integer with %s: the value's byte order no longer follows the archive's endianness" % sh, where)
     if n < 2:
         rep.inconc(R6, "only %d endian-aware writes found in serialize" % n)
 
